@@ -79,6 +79,7 @@ class Layout:
         self.trailing_comment = kw.get("trailing_comment", set())
         self.split = kw.get("split", {})                    # s -> [(token index t (break before t), style)]
         self.join_next = kw.get("join_next", set())         # s joined with s+1 by ';'
+        self.join_sep = kw.get("join_sep", "; ")            # "; " or ";" (the next statement starts right after it)
         self.eol = kw.get("eol", "\n")
         self.trailing_blanks = kw.get("trailing_blanks", 0)
         self.case = kw.get("case", "asis")                  # asis | upper | lower | alt
@@ -95,7 +96,7 @@ class Layout:
         for k in ("trailing_comment", "join_next"):
             if getattr(self, k):
                 d[k] = sorted(getattr(self, k))
-        for k, dflt in (("eol", "\n"), ("trailing_blanks", 0), ("case", "asis"), ("fixed", False), ("no_indent", False)):
+        for k, dflt in (("eol", "\n"), ("trailing_blanks", 0), ("case", "asis"), ("fixed", False), ("no_indent", False), ("join_sep", "; ")):
             if getattr(self, k) != dflt:
                 d[k] = getattr(self, k)
         if self.fixed:
@@ -155,7 +156,7 @@ def render(stmts, lay: Layout = None) -> Rendered:
         for gi, s in enumerate(group):
             sst = stmts[s]
             if gi > 0:
-                cur += "; "
+                cur += lay.join_sep
             splits = dict(lay.split.get(s, []))
             prev_end = None
             for t, (a, b, tok) in enumerate(sst.toks):
